@@ -1000,15 +1000,15 @@ where
     }
 
     /**
-    Returns the number of nodes in the graph.
+    Returns the number of edges in the graph; parallel edges are counted individually.
     ```
     use graphrs::{generators};
     let graph = generators::social::karate_club_graph();
-    assert_eq!(graph.number_of_nodes(), 34);
+    assert_eq!(graph.number_of_edges(), 78);
     ```
     */
     pub fn number_of_edges(&self) -> usize {
-        self.edges.len()
+        self.get_all_edges().len()
     }
 
     /**
